@@ -526,6 +526,115 @@ KNOWN_MATCH = {"C01-F1": lambda v: v.get("site") == KNOWN_SITE and v.get("when")
 KNOWN_WITNESS = {"C01-F1": _known_witness}
 
 
+def owned_after_factory(ctx):
+    """Objects built by a factory with copy=True (the default) own their samples: whatever the source was - an array of the requested or
+    of another dtype, C- or Fortran-ordered, a row of a 2-D array, a nested list - the next append / capacity change / longer load_data
+    behaves as the list model says (the samples followed by the appended ones, ...), never a refusal to grow"""
+    import numpy as np
+    from nitypes.waveform import AnalogWaveform, ComplexWaveform, DigitalWaveform, Spectrum
+    from props.common import outcome, show
+    n = 0
+    rows = [[1, 2, 3], [4, 5, 6]]
+    for cls, kind, dty in ((AnalogWaveform, "a", np.float64), (AnalogWaveform, "a", np.int32), (ComplexWaveform, "a", np.complex128), (Spectrum, "s", np.float64), (DigitalWaveform, "d", np.uint8)):
+        for src_dt in (dty, np.int16, np.float32, np.uint8):
+            for src_kind in ("C", "F", "list", "rows-of-3d", "transposed"):
+                for factory in ("1d", "2d"):
+                    for then in ("append1", "append-many", "capacity", "load-longer", "append-object"):
+                        if kind == "d":
+                            if src_dt not in (np.uint8,) or factory == "2d" and src_kind == "rows-of-3d":
+                                continue
+                            base = np.array([[1, 0], [0, 1], [1, 1]], np.uint8)
+                            src = {"C": base, "F": np.asfortranarray(base), "list": base.tolist(), "rows-of-3d": np.stack([base, base])[1], "transposed": base.T.copy().T}[src_kind]
+                            o = outcome(lambda: [DigitalWaveform.from_lines(src)])
+                            want0 = [base.tolist()]
+                        else:
+                            base = np.array(rows, src_dt)
+                            src2 = {"C": base, "F": np.asfortranarray(base), "list": base.tolist(), "rows-of-3d": np.stack([base, base])[0], "transposed": base.T.copy().T}[src_kind]
+                            if factory == "1d":
+                                src1 = src2[0] if not isinstance(src2, list) else src2[0]
+                                o = outcome(lambda: [cls.from_array_1d(src1, dty)])
+                                want0 = [rows[0]]
+                            else:
+                                o = outcome(lambda: list(cls.from_array_2d(src2, dty)))
+                                want0 = [rows[0], rows[1]]
+                        n += 1
+                        ctx.case(("owned-after-factory", cls.__name__, str(np.dtype(src_dt)), src_kind, factory, then))
+                        if o[0] != "ok":
+                            continue                         # refusals of the factory itself are other sections' business
+                        for w, w0 in zip(o[1], want0):
+                            view = lambda: (w.data if kind in ("s", "d") else w.raw_data)
+                            extra = np.array([[1, 1]], np.uint8) if kind == "d" else np.array([7], dty)
+                            many = np.repeat(extra, 5000, axis=0)
+                            if then == "append1":
+                                r, want = outcome(w.append, extra), list(w0) + extra.tolist()
+                            elif then == "append-many":
+                                r, want = outcome(w.append, many), list(w0) + many.tolist()
+                            elif then == "capacity":
+                                r, want = outcome(lambda: setattr(w, "capacity", 50)), list(w0)
+                            elif then == "load-longer":
+                                r, want = outcome(w.load_data, many), many.tolist()
+                            else:
+                                other = DigitalWaveform.from_lines(extra) if kind == "d" else cls.from_array_1d(extra, dty)
+                                r, want = outcome(w.append, other), list(w0) + extra.tolist()
+                            got = view().tolist() if r[0] == "ok" else None
+                            if r[0] != "ok" or got != (np.array(want).astype(view().dtype).tolist()):
+                                ctx.violation(what="an object built by a copying factory does not behave as the owner of its samples", cls=cls.__name__, factory=("from_lines" if kind == "d" else "from_array_" + factory),
+                                              source=f"{src_kind} {np.dtype(src_dt)}", requested_dtype=str(np.dtype(dty)), then=then, observed=(show(r)[:160] if r[0] != "ok" else str(got)[:160]),
+                                              required=str(want)[:160])
+                                return n
+    return n
+
+
+def zero_signal_digital(ctx):
+    """DigitalWaveforms without signals (DigitalWaveform(n, 0), from_lines of an (n, 0) array, from_port with mask 0) still count samples:
+    seeded histories of appends of (k, 0) arrays / zero-signal waveforms / sequences, loads, capacity and sample_count changes against
+    a plain counter"""
+    import numpy as np
+    from nitypes.waveform import DigitalWaveform
+    from props.common import outcome, show
+    rng = ctx.rng
+    n = 0
+    for h in range(40 if ctx.quick else 800):
+        n0 = rng.randint(0, 4)
+        w = rng.choice([lambda: DigitalWaveform(n0, 0), lambda: DigitalWaveform.from_lines(np.zeros((n0, 0), np.uint8)),
+                        lambda: DigitalWaveform.from_port(np.zeros(n0, np.uint8), 0)])()
+        count, trace = n0, [f"new({n0}, 0 signals)"]
+        for step in range(rng.randint(1, 8)):
+            k = rng.choice([0, 1, 1, 2, 3, 17])
+            op = rng.choice(["append-array", "append-array", "append-object", "append-list", "load", "set-count", "capacity", "append-1-signal"])
+            if op == "append-array":
+                r, want = outcome(w.append, np.zeros((k, 0), np.uint8)), count + k
+            elif op == "append-object":
+                r, want = outcome(w.append, DigitalWaveform(k, 0)), count + k
+            elif op == "append-list":
+                ks = [rng.choice([0, 1, 2]) for _ in range(rng.randint(0, 3))]
+                r, want = outcome(w.append, [DigitalWaveform(x, 0) for x in ks]), count + sum(ks)
+            elif op == "load":
+                r, want = outcome(w.load_data, np.zeros((k, 0), np.uint8)), k
+            elif op == "set-count":
+                k = rng.randint(0, max(count, 1))
+                r, want = outcome(lambda: setattr(w, "sample_count", k)), (k if k <= w.capacity - w.start_index else None)
+            elif op == "capacity":
+                k = count + rng.randint(0, 5)
+                r, want = outcome(lambda: setattr(w, "capacity", k)), count
+            else:
+                r, want = outcome(w.append, np.zeros((1, 1), np.uint8)), None
+            trace.append(f"{op}({k})")
+            n += 1
+            ctx.case(("zero-signal", h, step, op))
+            ctx.count("zero-signal", op)
+            if want is None:
+                ok = r[0] == "err" and w.sample_count == count
+            else:
+                ok = r[0] == "ok" and w.sample_count == want and w.data.shape == (want, 0) and w.signal_count == 0 and w.start_index + want <= w.capacity
+                count = want if r[0] == "ok" else count
+            if not ok:
+                ctx.violation(what="zero-signal digital waveform loses or invents samples", history=" ; ".join(trace)[-300:], observed=f"{show(r)[:80]} sample_count={w.sample_count} data.shape={w.data.shape}",
+                              required=("refused, unchanged" if want is None else f"sample_count {want}, data.shape ({want}, 0)"))
+                return n
+    return n
+
+
 def run(ctx):
     world = H.World(ctx.rng)
     # the kinds of object accepted where an integer is (tier T12: Gen/Args.lean, Props/Args.lean) against the real converters
@@ -554,6 +663,8 @@ def run(ctx):
     ctx.extra["borrowed_and_factory_calls"] = borrowed_and_factory_cases(ctx)
     ctx.extra["self_aliasing_appends"] = self_aliasing_appends(ctx)
     ctx.extra["self_aliasing_loads"] = self_aliasing_loads(ctx)
+    ctx.extra["owned_after_factory"] = owned_after_factory(ctx)
+    ctx.extra["zero_signal_digital"] = zero_signal_digital(ctx)
     ctx.extra["shared_1d_growth"] = shared_1d_growth(ctx, lambda v: ctx.violation(**v))
     ctx.extra["reads_change_nothing"] = reads_change_nothing(ctx)
     ctx.extra["narrow_scalar_calls"] = H.narrow_scalar_cases(ctx, lambda info, obs, req: ctx.violation(what="a call with narrow NumPy integer scalars differs from the call with the same Python ints", observed=obs, required=req, **info))
